@@ -464,7 +464,9 @@ def vector_span_comparer(comparer_params_eval, student_eval, utils):
     # rcond=-1 uses machine precision for testing singular values
     # In numpy 1.14+, use rcond=None fo this behavior. (we use 1.6)
     ols = np.linalg.lstsq(column_vectors, student_eval, rcond=-1)
-    error = np.sqrt(ols[1])
+    # Compute the residual ourselves: lstsq returns an empty residual array when the
+    # given vectors are linearly dependent, which would accept every nonzero vector
+    error = np.linalg.norm(np.asarray(student_eval) - np.dot(column_vectors, ols[0]))
 
     # Check that error is nearly zero, using student_eval as a reference
     # when tolerance is specified as a percentage
